@@ -46,7 +46,7 @@ func c06MakeEntry(dir, name, kind string, w *World) {
 func TestC06(t *testing.T) {
 	r := NewReporter(t)
 	defer r.Done()
-	r.Rule("directories with 0..3 entries of every kind combination (file, dir, symlink->file, symlink->dir, dangling, self-referencing link, link through a regular file) and name sets (ASCII, space, non-ASCII, 255 bytes, not valid UTF-8) x every interleaving of {ReadDir, ReadDirEntry, ReadDirEntryV2} of length <= entries+2 after OpenDir; sizes and modification times beyond 32 bits; entry-count families (1..40 / 1..300 contiguous, then powers of two +-1 up to 4097); Stat and GetDirSize on every path of every tree with <= 3 nodes; distinct by (directory shape, command sequence)")
+	r.Rule("directories with 0..3 entries of every kind combination (file, dir, symlink->file, symlink->dir, dangling, self-referencing link, link through a regular file) and name sets (ASCII, space, non-ASCII, 255 bytes, not valid UTF-8) x every interleaving of {ReadDir, ReadDirEntry, ReadDirEntryV2} of length <= entries+2 after OpenDir; sizes and modification times beyond 32 bits; directories named like disc images (with key files) and like protocol keywords; entry-count families (1..40 / 1..300 contiguous, then powers of two +-1 up to 4097); Stat and GetDirSize on every path of every tree with <= 3 nodes; distinct by (directory shape, command sequence)")
 	w := newWorld(t, "srv/root")
 	defer w.Cleanup()
 	mkFileAbs(filepath.Join(w.Root, "targets", "tfile"), 1234, 7, baseTime.Add(time1(40)))
@@ -224,6 +224,38 @@ func TestC06(t *testing.T) {
 		}
 		run("sizes and times beyond 32 bits", reqs)
 		os.RemoveAll(dir)
+	}
+	// (b'') directories whose names and neighbours make them look like disc images: `<name>.iso` directories below
+	// PS3ISO with a key file beside them or in REDKEY, a directory called CLOSEFILE, directories carrying the
+	// virtual prefixes' names - they are directories and list like any other
+	caseIdx++
+	if r.Mine(caseIdx) {
+		hexKey := strings.Repeat("0123456789abcdef", 2)
+		for _, top := range []string{"PS3ISO", "ps3iso", "x/PS3ISO"} {
+			base := filepath.Join(w.Root, top)
+			mkFileAbs(filepath.Join(base, "game.iso", "a.bin"), 1500, 3, baseTime)
+			mkFileAbs(filepath.Join(base, "game.iso", "sub", "b.bin"), 50, 4, baseTime)
+			writeFileAbs(filepath.Join(base, "game.dkey"), []byte(hexKey), baseTime)
+			mkFileAbs(filepath.Join(base, "alt.ISO", "c.bin"), 300, 5, baseTime)
+			writeFileAbs(filepath.Join(filepath.Dir(base), "REDKEY", "alt.dkey"), []byte(hexKey), baseTime)
+			mkFileAbs(filepath.Join(base, "plain.iso", "d.bin"), 32, 6, baseTime)
+			var reqs []Req
+			for _, d := range []string{"/" + top + "/game.iso", "/" + top + "/alt.ISO", "/" + top + "/plain.iso", "/" + top} {
+				reqs = append(reqs, mkReq(opStatFile, d), mkReq(opOpenDir, d), noargReq(opReadDir), mkReq(opOpenDir, d), noargReq(opReadDirEntry), noargReq(opReadDirEntryV2), noargReq(opReadDirEntry), noargReq(opReadDirEntry), mkReq(opGetDirSize, d))
+			}
+			reqs = append(reqs, mkReq(opGetDirSize, "/"), mkReq(opStatFile, "/"+top+"/game.iso/a.bin"), mkReq(opOpenDir, "/"+top+"/game.iso/sub"), noargReq(opReadDir))
+			run("directories named like disc images below "+top, reqs)
+			os.RemoveAll(filepath.Join(w.Root, strings.Split(top, "/")[0]))
+			os.RemoveAll(filepath.Join(filepath.Dir(base), "REDKEY"))
+		}
+		for _, name := range []string{"CLOSEFILE", "***DVD***", "***PS3***", "REDKEY"} {
+			mkFileAbs(filepath.Join(w.Root, name, "f.bin"), 77, 7, baseTime)
+		}
+		run("directories named like protocol keywords", []Req{mkReq(opOpenDir, "/CLOSEFILE"), noargReq(opReadDir), mkReq(opGetDirSize, "/CLOSEFILE"), mkReq(opStatFile, "/CLOSEFILE"), mkReq(opStatFile, "/CLOSEFILE/f.bin"),
+			mkReq(opOpenDir, "/REDKEY"), noargReq(opReadDirEntry), mkReq(opGetDirSize, "/REDKEY"), mkReq(opOpenDir, "/"), noargReq(opReadDir), mkReq(opGetDirSize, "/")})
+		for _, name := range []string{"CLOSEFILE", "***DVD***", "***PS3***", "REDKEY"} {
+			os.RemoveAll(filepath.Join(w.Root, name))
+		}
 	}
 	// (c) stat and dir-size on every path of every small tree
 	maxNodes := 3
